@@ -187,6 +187,36 @@ pub fn run(ctx: &Ctx) -> i32 {
         subs.push(all_pairs("strings-unicode-digits", &rule, &items, &show, &lib_cmp, Some(&ref_cmp), None));
     }
 
+    // the two operands borrowed from ONE buffer: equal start address with different lengths, overlapping, adjacent
+    // (every other sub-check hands over separately allocated strings)
+    {
+        let bufs: Vec<String> = ["1.0.1", "1.0~rc1", "10.01a", "a1^b-2", "0:1-1.", "~~1é2", "1.0.0.0", "001.1"].iter().map(|s| s.to_string()).collect();
+        let mut items: Vec<(usize, usize, usize)> = vec![];
+        for (b, s) in bufs.iter().enumerate() {
+            let cuts: Vec<usize> = (0..=s.len()).filter(|i| s.is_char_boundary(*i)).collect();
+            for (x, i) in cuts.iter().enumerate() {
+                for j in &cuts[x..] {
+                    items.push((b, *i, *j));
+                }
+            }
+        }
+        let sl = |t: &(usize, usize, usize)| &bufs[t.0][t.1..t.2];
+        let a_show = |t: &(usize, usize, usize)| json!({"slice": sl(t), "of_buffer": bufs[t.0], "range": [t.1, t.2]});
+        let a_lib = |a: &(usize, usize, usize), b: &(usize, usize, usize)| {
+            let (x, y) = (sl(a), sl(b));
+            let c = Evr::new("", x, "").cmp(&Evr::new("", y, ""));
+            // the release component and the string entry point go through the same comparison: they must agree with it
+            let c2 = Evr::new("1", "1", x).cmp(&Evr::new("1", "1", y));
+            if c2 != c {
+                return if c == Ordering::Equal { Ordering::Less } else { Ordering::Equal };
+            }
+            c
+        };
+        let a_ref = |a: &(usize, usize, usize), b: &(usize, usize, usize)| rpmvercmp(sl(a).as_bytes(), sl(b).as_bytes());
+        let rule = format!("all ordered pairs of the {} substrings of {:?}, handed over as slices of the same {} buffers (same start address with different lengths, overlapping, adjacent): the result must depend on the contents only; same oracles", items.len(), bufs, bufs.len());
+        subs.push(all_pairs("aliased-slices", &rule, &items, &a_show, &a_lib, Some(&a_ref), None));
+    }
+
     // numeric segments around machine-integer widths, with and without leading zeros
     {
         let nums = [
